@@ -29,7 +29,12 @@ OkTiny(o) ==
         ref == srtt2 + (IF k > o.gran_ns THEN k ELSE o.gran_ns)
     IN /\ o.sampled
        /\ Abs(o.used_rto_ns - ref) <= (ref \div 100000) + 1008
-Ok(o) == IF o.op = "tiny" THEN OkTiny(o) ELSE OkC15(o)
+\* "evkeep" records (C12 / C17): events the application had not collected yet when a call that must
+\* change nothing was made (a refused request, a rejected buffer, an idle timer call) are the same
+\* events afterwards
+OkEvKeep(o) == o.before > 0 /\ o.after = o.before /\ o.same /\ o.refused
+Ok(o) == IF o.op = "tiny" THEN OkTiny(o) ELSE IF o.op = "evkeep" THEN OkEvKeep(o) ELSE OkC15(o)
+PropOf(o) == IF "prop" \in DOMAIN o THEN o.prop ELSE "C15"
 
 VARIABLES l, nbad
 vars == <<l, nbad>>
@@ -38,7 +43,7 @@ TNext ==
     /\ l <= Len(Rec)
     /\ l' = l + 1
     /\ IF Ok(Rec[l]) THEN nbad' = nbad
-       ELSE PrintT(<<"BAD", "C15", l, Rec[l].tr>>) /\ nbad' = nbad + 1
+       ELSE PrintT(<<"BAD", PropOf(Rec[l]), l, Rec[l].tr>>) /\ nbad' = nbad + 1
 TSpec == TInit /\ [][TNext]_vars
 Accepted == /\ PrintT(<<"CONSUMED", TLCGet("stats").diameter - 1, Len(Rec)>>)
             /\ TLCGet("stats").diameter - 1 = Len(Rec)
